@@ -766,7 +766,7 @@ pub fn motifs(rng: &mut Rng, limit: usize) -> Vec<(B, bool)> {
 }
 
 /// `List<T>` API against a plain list: random operation sequences (new, append, tail, head, len, iter).
-pub fn list_ops(rng: &mut Rng, n: usize, rep: &mut Report, sink: &mut Sink) {
+pub fn list_ops(rng: &mut Rng, n: usize, prop: &'static str, rep: &mut Report, sink: &mut Sink) {
     let mut l: List<u64> = List::new();
     sink.emit("L new", "ok");
     for _ in 0..n {
@@ -796,6 +796,62 @@ pub fn list_ops(rng: &mut Rng, n: usize, rep: &mut Report, sink: &mut Sink) {
                 let c = l.clone();
                 let v: Vec<String> = c.iter().map(|x| x.to_string()).collect();
                 sink.emit("L iter", &if v.is_empty() { "-".to_string() } else { v.join(",") });
+                // the iterator adaptors the engine relies on (`filter(..).count()` runs on `fold`, not on `next`):
+                // every one of them must agree with the elements `next()` yields
+                let mut by_next: Vec<u64> = vec![];
+                let mut it = c.iter();
+                while let Some(x) = it.next() {
+                    by_next.push(*x);
+                }
+                let probe = by_next.get(rng.below(by_next.len().max(1))).copied().unwrap_or(7);
+                let oldest = by_next.last().copied();
+                let k = rng.below(by_next.len() + 2);
+                let bn = &by_next;
+                let cr = &c;
+                let checked = guard(|| {
+                    let c = cr;
+                    let by_next = bn;
+                    let mut bad: Vec<String> = vec![];
+                if c.iter().count() != by_next.len() {
+                    bad.push(format!("count() = {} but next() yields {}", c.iter().count(), by_next.len()));
+                }
+                if c.len() != by_next.len() {
+                    bad.push(format!("len() = {} but next() yields {}", c.len(), by_next.len()));
+                }
+                for want in [probe, oldest.unwrap_or(probe)] {
+                    let a = c.iter().filter(|h| **h == want).count();
+                    let b = by_next.iter().filter(|h| **h == want).count();
+                    if a != b {
+                        bad.push(format!("filter(== {}).count() = {} but {} of the elements next() yields match", want, a, b));
+                    }
+                }
+                if c.iter().fold(0u64, |acc, x| acc.wrapping_mul(31).wrapping_add(*x)) != by_next.iter().fold(0u64, |acc, x| acc.wrapping_mul(31).wrapping_add(*x)) {
+                    bad.push("fold differs from folding the elements next() yields".to_string());
+                }
+                if c.iter().last().copied() != oldest {
+                    bad.push(format!("last() = {:?} but the last element next() yields is {:?}", c.iter().last(), oldest));
+                }
+                if c.iter().nth(k).copied() != by_next.get(k).copied() {
+                    bad.push(format!("nth({}) = {:?}, next() yields {:?} there", k, c.iter().nth(k), by_next.get(k)));
+                }
+                if c.iter().any(|h| *h == probe) != by_next.contains(&probe) {
+                    bad.push("any() differs".to_string());
+                }
+                let (lo, hi) = c.iter().size_hint();
+                if lo > by_next.len() || hi.map_or(false, |h| h < by_next.len()) {
+                    bad.push(format!("size_hint() = ({}, {:?}) excludes the real length {}", lo, hi, by_next.len()));
+                }
+                    bad
+                });
+                let bad: Vec<String> = match checked {
+                    Some(b) => b,
+                    None => vec!["an iterator adaptor (count / filter / fold / last / nth / any / size_hint) panics".to_string()],
+                };
+                rep.eval(prop);
+                rep.nontriv(prop, by_next.len() as u64);
+                if let Some(b) = bad.first() {
+                    rep.fail_raw(prop, "history-iterator-adaptor-disagrees-with-next", format!("List {:?} (newest first)", by_next), vec![], b.clone());
+                }
             }
         }
     }
